@@ -101,6 +101,18 @@ Theorem C16_bulk : forall (C : cacher_ops) (L : cacher_laws C)
     (length (found_pairs (ack_map (unit_run C (unit_new C) pre)) ks) <= length l + count_true o)%nat.
 Proof. exact bulk_all. Qed.
 
+(** cold reads (what makes the error class of a read right after ClearCache a policy-independent
+    observable): for a cacher whose Clear forgets everything ([clear_forgets], an explicit premise:
+    it is not one of the laws), a Get / Has issued right after ClearCache always reaches the
+    persister: it fails iff the oracle says so and otherwise answers like the map *)
+Theorem C16_cold_read : forall (C : cacher_ops) (L : cacher_laws C) (ops : list uop) (k : bytes) (o : oracle),
+  clear_forgets C L ->
+  let s := unit_clear_cache C (unit_final C (unit_new C) ops) in
+  let m := ack_map (unit_run C (unit_new C) ops) in
+  snd (unit_get C s k o) = (if hd false o then GErr EInjected else spec_get m k) /\
+  snd (unit_has C s k o) = (if hd false o then EInjected else spec_has m k).
+Proof. exact cold_read. Qed.
+
 (** the decision rule of factory.NewStorageUnitFromConf *)
 Theorem C16_factory_guard : forall (max_batch_size : Z) (capacity : N),
   (factory_guard max_batch_size capacity = FRefusedBatchSize <-> (max_batch_size > Z.of_N capacity)%Z) /\
@@ -108,6 +120,9 @@ Theorem C16_factory_guard : forall (max_batch_size : Z) (capacity : N),
 Proof. exact factory_guard_spec. Qed.
 
 (** the laws are inhabited: the bounded insertion-order cache, for every capacity (0 included) *)
+Theorem C16_small_cache_clear_forgets : forall cap : nat, clear_forgets (small_cache cap) (small_cache_laws cap).
+Proof. exact small_cache_clear_forgets. Qed.
+
 Theorem C16_map_small_cache : forall (cap : nat) (ops : list uop),
   trace_ok [] (unit_run (small_cache cap) (unit_new (small_cache cap)) ops).
 Proof. exact (fun cap => map_all (small_cache cap) (small_cache_laws cap)). Qed.
@@ -187,7 +202,9 @@ Print Assumptions C16_coherent_has.
 Print Assumptions C16_rejected_put.
 Print Assumptions C16_remove_both.
 Print Assumptions C16_bulk.
+Print Assumptions C16_cold_read.
 Print Assumptions C16_factory_guard.
+Print Assumptions C16_small_cache_clear_forgets.
 Print Assumptions C16_map_small_cache.
 Print Assumptions C16_coherent_small_cache.
 Print Assumptions C16_map_unguarded_refuted.
